@@ -170,6 +170,10 @@ def oracle(case):
         return _oracle_slots(case)
     if case.get("sub") == "chain":
         return _oracle_chain(case)
+    if case.get("sub") == "nuts":
+        return _oracle_nuts(case)
+    if case.get("sub") == "merge":
+        return _oracle_merge_unit(case)
     r, a = _leap(case)
     sig = dict(sub="leap", kind=case["kind"])
     if is_err(r):
@@ -217,6 +221,208 @@ def shrink(case):
         yield dict(case, vector=False)
     if case["kind"] == "nonpoly":
         yield dict(case, kind="quartic")
+
+
+
+# ---- NUTS tree: trace validation on the real, eagerly executed code -----------------------------------------------
+def gen_nuts(rng, quick=True):
+    c = gen_leap(rng, quick, kind=rng.choice(["quad", "quartic", "nonpoly"]))
+    c.update(sub="nuts", d=min(c["d"], 2), eps=rs(dyadic(rng, 3, 10, 0) / 16), depth=rng.randint(2, 3 if quick else 5),
+             bias=rng.random() < 0.6, key=rng.randint(0, 2 ** 31 - 1), vector=False)
+    d = c["d"]
+    for k in ("b", "c", "minv", "q", "p"):
+        c[k] = c[k][:d]
+    c["A"] = [r[:d] for r in c["A"][:d]]
+    return c
+
+
+def nuts_trace(c):
+    """run the real generate_nuts_tree with Python control flow (nifty.re.lax._DISABLE_CONTROL_FLOW_PRIM) and record every
+    call of add_single_qp_to_tree / merge_trees / is_euclidean_uturn / iterative_build_tree and every leapfrog result"""
+    def go():
+        jax = jax_setup()
+        import jax.numpy as jnp
+        from jax import random
+        from nifty.re import hmc, lax as nlax
+        s, wrap = _sampler(c)
+        eps = fl(c["eps"])
+        qp0 = hmc.QP(position=jnp.array(fll(c["q"])), momentum=jnp.array(fll(c["p"])))
+        en = lambda z: float(hmc.total_energy_of_qp(z, s.potential_energy, lambda m: s.kinetic_energy(s.inverse_mass_matrix, m)))
+        vec = lambda z: np.concatenate([np.asarray(z.position, dtype=float).reshape(-1), np.asarray(z.momentum, dtype=float).reshape(-1)])
+        tkey = lambda z: vec(z).tobytes()
+        rec = dict(leaves=[vec(qp0)], energy=[en(qp0)], subtrees=[], adds=[], merges=[], uturns=[])
+        index = {tkey(qp0): 0}
+        ctx_ = dict(in_merge=False, cur=None)
+        o_add, o_merge, o_ut, o_it = hmc.add_single_qp_to_tree, hmc.merge_trees, hmc.is_euclidean_uturn, hmc.iterative_build_tree
+
+        def stepper(e, minv, z):
+            z2 = s.stepper(e, minv, z)
+            index[tkey(z2)] = len(rec["leaves"])
+            rec["leaves"].append(vec(z2))
+            rec["energy"].append(en(z2))
+            if ctx_["cur"] is not None:
+                ctx_["cur"]["leaves"].append(index[tkey(z2)])
+            return z2
+
+        def w_add(key, tree, qp, go_right, *a, **k):
+            out = o_add(key, tree, qp, go_right, *a, **k)
+            rec["adds"].append(dict(u=float(random.uniform(key, (), dtype=jnp.float64)), w_old=float(tree.logweight),
+                                    leaf=index[tkey(qp)], w_out=float(out.logweight), old=index[tkey(tree.proposal_candidate)],
+                                    cand=index[tkey(out.proposal_candidate)], go_right=bool(go_right),
+                                    left=index[tkey(out.left)], right=index[tkey(out.right)],
+                                    tl=index[tkey(tree.left)], tr=index[tkey(tree.right)]))
+            return out
+
+        def w_merge(key, cur, new, go_right, bias_transition):
+            ctx_["in_merge"] = True
+            try:
+                out = o_merge(key, cur, new, go_right, bias_transition)
+            finally:
+                ctx_["in_merge"] = False
+            rec["merges"].append(dict(u=float(random.uniform(key, (), dtype=jnp.float64)), w_cur=float(cur.logweight),
+                                      w_new=float(new.logweight), w_out=float(out.logweight), bias=bool(bias_transition),
+                                      c_cur=index[tkey(cur.proposal_candidate)], c_new=index[tkey(new.proposal_candidate)],
+                                      cand=index[tkey(out.proposal_candidate)], go_right=bool(go_right),
+                                      ends=[index[tkey(cur.left)], index[tkey(cur.right)], index[tkey(new.left)],
+                                            index[tkey(new.right)], index[tkey(out.left)], index[tkey(out.right)]],
+                                      depth=[int(cur.depth), int(out.depth)], turning=bool(out.turning)))
+            return out
+
+        def w_ut(a, b):
+            r = o_ut(a, b)
+            if not ctx_["in_merge"] and ctx_["cur"] is not None:
+                ctx_["cur"]["checks"].append((index[tkey(a)], index[tkey(b)], bool(r)))
+            return r
+
+        def w_it(key, initial_tree, step_size, go_right, *a, **k):
+            ctx_["cur"] = dict(leaves=[], checks=[], go_right=bool(go_right), depth_in=int(initial_tree.depth))
+            out = o_it(key, initial_tree, step_size, go_right, *a, **k)
+            ctx_["cur"].update(turning=bool(out.turning), depth_out=int(out.depth), w=float(out.logweight),
+                               cand=index[tkey(out.proposal_candidate)])
+            rec["subtrees"].append(ctx_["cur"])
+            ctx_["cur"] = None
+            return out
+        old_flag = nlax._DISABLE_CONTROL_FLOW_PRIM
+        nlax._DISABLE_CONTROL_FLOW_PRIM = True
+        hmc.add_single_qp_to_tree, hmc.merge_trees, hmc.is_euclidean_uturn, hmc.iterative_build_tree = w_add, w_merge, w_ut, w_it
+        try:
+            tree = hmc.generate_nuts_tree(qp0, random.PRNGKey(c["key"]), eps, c["depth"], stepper, s.potential_energy,
+                                          s.kinetic_energy, s.inverse_mass_matrix, bias_transition=c["bias"])
+        finally:
+            nlax._DISABLE_CONTROL_FLOW_PRIM = old_flag
+            hmc.add_single_qp_to_tree, hmc.merge_trees, hmc.is_euclidean_uturn, hmc.iterative_build_tree = o_add, o_merge, o_ut, o_it
+        rec["final"] = dict(w=float(tree.logweight), cand=index[tkey(tree.proposal_candidate)], depth=int(tree.depth),
+                            left=index[tkey(tree.left)], right=index[tkey(tree.right)])
+        return rec
+    from core.ctx import canon
+    k = ("nuts", canon(c))
+    if k not in _LEAP_CACHE:
+        _LEAP_CACHE[k] = safe(go)
+    return _LEAP_CACHE[k]
+
+
+def _expit(x):
+    return 1.0 / (1.0 + math.exp(-x)) if x > -700 else 0.0
+
+
+def _oracle_nuts(case):
+    r = nuts_trace(case)
+    sig = dict(sub="nuts")
+    if is_err(r):
+        return (f"generate_nuts_tree raised {r['error']}", dict(sig, what="error", error=r["error"]))
+    E = r["energy"]
+    lse = lambda xs: float(np.logaddexp.reduce(np.array(xs, dtype=float)))
+    # 1. slot bookkeeping observed on the real run: pairs compared at every odd leaf of every sub-tree
+    for st in r["subtrees"]:
+        L = st["leaves"]
+        want = []
+        for n in range(1, len(L), 2):
+            l = len(bin(n)) - len(bin(n).rstrip("1"))
+            want += [(L[n + 1 - 2 ** (j + 1)], L[n]) for j in reversed(range(l))]
+        got = [(a, b) for a, b, _ in st["checks"]]
+        if got != want:
+            return (f"iterative_build_tree compared the leaf pairs {got}, the complete sub-trees ending at the odd leaves "
+                    f"are {want}", dict(sig, what="slots"))
+        if st["turning"] != any(t for _, _, t in st["checks"]):
+            return ("sub-tree turning flag is not the OR of its u-turn checks", dict(sig, what="turning"))
+        if not st["turning"] and len(L) == 2 ** st["depth_in"] and abs(st["w"] - lse([-E[i] for i in L])) > 1e-9 * max(1.0, abs(st["w"])):
+            return (f"sub-tree log-weight {st['w']!r} is not logsumexp(−H) over its {len(L)} leaves",
+                    dict(sig, what="subtree_weight"))
+    # 2. progressive (multinomial) sampling inside a sub-tree
+    for a in r["adds"]:
+        wnew = -E[a["leaf"]]
+        if abs(a["w_out"] - float(np.logaddexp(a["w_old"], wnew))) > 1e-9 * max(1.0, abs(a["w_out"])):
+            return ("add_single_qp_to_tree: log-weight is not logaddexp(old, −H(new leaf))", dict(sig, what="add_weight"))
+        p = _expit(a["w_old"] - wnew)
+        if abs(a["u"] - p) > 1e-6 and (a["cand"] == a["old"]) != (a["u"] < p) and a["old"] != a["leaf"]:
+            return (f"add_single_qp_to_tree: kept old candidate = {a['cand'] == a['old']} but u={a['u']:.6g}, "
+                    f"e^W/(e^W+e^w)={p:.6g}", dict(sig, what="add_choice"))
+        ends = (a["tl"], a["leaf"]) if a["go_right"] else (a["leaf"], a["tr"])
+        if (a["left"], a["right"]) != ends:
+            return ("add_single_qp_to_tree: wrong end points", dict(sig, what="add_ends"))
+    # 3. merging two trees
+    for m in r["merges"]:
+        if abs(m["w_out"] - float(np.logaddexp(m["w_cur"], m["w_new"]))) > 1e-9 * max(1.0, abs(m["w_out"])):
+            return ("merge_trees: log-weight is not logaddexp of the two sub-trees", dict(sig, what="merge_weight"))
+        dlt = m["w_new"] - m["w_cur"]
+        p = min(1.0, math.exp(min(dlt, 50.0))) if m["bias"] else _expit(dlt)
+        if abs(m["u"] - p) > 1e-6 and m["c_cur"] != m["c_new"] and (m["cand"] == m["c_new"]) != (m["u"] < p):
+            return (f"merge_trees: took the new candidate = {m['cand'] == m['c_new']} but u={m['u']:.6g}, transition "
+                    f"probability {p:.6g} (bias_transition={m['bias']})", dict(sig, what="merge_choice"))
+        cl, cr, nl, nr, ol, orr = m["ends"]
+        if (ol, orr) != ((cl, nr) if m["go_right"] else (nl, cr)):
+            return ("merge_trees: wrong end points", dict(sig, what="merge_ends"))
+        if m["depth"][1] != m["depth"][0] + 1:
+            return ("merge_trees: depth not incremented", dict(sig, what="merge_depth"))
+    # 4. the final tree
+    merged = [0] + [i for st, _ in zip([s_ for s_ in r["subtrees"] if not s_["turning"] and len(s_["leaves"]) == 2 ** s_["depth_in"]],
+                                       r["merges"]) for i in st["leaves"]]
+    f = r["final"]
+    if abs(f["w"] - lse([-E[i] for i in merged])) > 1e-9 * max(1.0, abs(f["w"])):
+        return (f"final tree log-weight {f['w']!r} is not logsumexp(−H) over the {len(merged)} leaves of the accepted "
+                f"sub-trees", dict(sig, what="final_weight"))
+    if f["cand"] not in merged:
+        return ("the proposed sample is not a leaf of the accepted tree", dict(sig, what="final_candidate"))
+    return None
+
+
+
+def real_merge_unit(c):
+    """the real merge_trees on two synthetic one-leaf trees with prescribed log-weights"""
+    def go():
+        jax = jax_setup()
+        import jax.numpy as jnp
+        from jax import random
+        from nifty.re import hmc
+        mk = lambda x, w: hmc.Tree(left=hmc.QP(jnp.array([x]), jnp.array([1.0])), right=hmc.QP(jnp.array([x + 0.5]), jnp.array([1.0])),
+                                   logweight=jnp.array(w), proposal_candidate=hmc.QP(jnp.array([x]), jnp.array([0.0])),
+                                   turning=False, diverging=False, depth=0, cumulative_acceptance=jnp.array(0.0))
+        out = []
+        for key in c["keys"]:
+            k = random.PRNGKey(key)
+            t = hmc.merge_trees(k, mk(0.0, fl(c["w_cur"])), mk(10.0, fl(c["w_new"])), c["go_right"], bias_transition=c["bias"])
+            out.append(dict(u=float(random.uniform(k, (), dtype=jnp.float64)), new=float(t.proposal_candidate.position[0]) == 10.0,
+                            w=float(t.logweight), left=float(t.left.position[0]), right=float(t.right.position[0])))
+        return out
+    return safe(go)
+
+
+def _oracle_merge_unit(c):
+    r = real_merge_unit(c)
+    sig = dict(sub="merge")
+    if is_err(r):
+        return (f"merge_trees raised {r['error']}", dict(sig, what="error", error=r["error"]))
+    dlt = fl(c["w_new"]) - fl(c["w_cur"])
+    p = min(1.0, math.exp(dlt)) if c["bias"] else _expit(dlt)
+    for o in r:
+        if abs(o["u"] - p) > 1e-6 and o["new"] != (o["u"] < p):
+            return (f"merge_trees(bias_transition={c['bias']}): new candidate taken = {o['new']} with u={o['u']:.6g} and "
+                    f"transition probability {p:.6g} (w_new−w_cur={dlt})", dict(sig, what="merge_choice"))
+        if abs(o["w"] - float(np.logaddexp(fl(c["w_cur"]), fl(c["w_new"])))) > 1e-12 * max(1.0, abs(o["w"])):
+            return ("merge_trees: log-weight is not logaddexp", dict(sig, what="merge_weight"))
+        if (o["left"], o["right"]) != ((0.0, 10.5) if c["go_right"] else (10.0, 0.5)):
+            return ("merge_trees: wrong end points", dict(sig, what="merge_ends"))
+    return None
 
 
 # ---- NUTS integer bookkeeping -------------------------------------------------------------------------------
@@ -368,6 +574,45 @@ def run(ctx):
         if res is not None:
             ctx.counterexample(dict(sub="slots", n=n), *res)
     ctx.extra["slots_exhaustive_below"] = 2 ** depth
+    # NUTS: trace validation of the eagerly executed real tree builder + decisions replayed by the model
+    nuts = [gen_nuts(rng, ctx.quick) for _ in range(ctx.n(4, 40))]
+    nlines, nmeta = [], []
+    for c in nuts:
+        ctx.case(c, True)
+        ctx.stat(f"nuts:depth<={c['depth']},bias={c['bias']}")
+        res = _oracle_nuts(c)
+        if res is not None:
+            ctx.counterexample(c, *res)
+        r = nuts_trace(c)
+        if is_err(r):
+            continue
+        ctx.stat(f"nuts:subtrees={len(r['subtrees'])}")
+        ctx.stat("nuts:merges", len(r["merges"]))
+        ctx.stat("nuts:adds", len(r["adds"]))
+        for a in r["adds"]:
+            nlines.append(dict(op="keep", u=rs(a["u"]), w_old=rs(a["w_old"]), neg_energy=rs(-r["energy"][a["leaf"]])))
+            nmeta.append((c, "remain", a["cand"] == a["old"], a["old"] == a["leaf"], a["u"]))
+        for m in r["merges"]:
+            nlines.append(dict(op="merge", u=rs(m["u"]), w_new=rs(m["w_new"]), w_cur=rs(m["w_cur"]), bias=m["bias"]))
+            nmeta.append((c, "take_new", m["cand"] == m["c_new"], m["c_cur"] == m["c_new"], m["u"]))
+    for (c, fld, impl, ambiguous, u), m in zip(nmeta, ctx.model(DRIVER, nlines)):
+        p = float(fr(m["p"]))
+        if ambiguous:
+            continue
+        if abs(u - p) <= 1e-6:
+            ctx.skipped_near_threshold += 1
+            continue
+        ctx.traces_validated += 1
+        if bool(m[fld]) != impl:
+            ctx.disagree(c, {fld: impl}, {fld: m[fld], "p": p}, "NUTS decision replayed by the model from recorded weights")
+    for _ in range(ctx.n(6, 40)):
+        c = dict(sub="merge", w_cur=rs(dyadic(rng, -3, 3, 2)), w_new=rs(dyadic(rng, -3, 3, 2)), bias=rng.random() < 0.5,
+                 go_right=rng.random() < 0.5, keys=[rng.randint(0, 2 ** 31 - 1) for _ in range(6)])
+        ctx.case(c, True)
+        ctx.stat(f"merge_unit:bias={c['bias']}")
+        res = _oracle_merge_unit(c)
+        if res is not None:
+            ctx.counterexample(c, *res)
     # chains: a statistical TEST of invariance (fixed keys, 6 sigma)
     chains = [dict(sub="chain", sampler="hmc", target="gauss1", N=ctx.n(4000, 40000), num_steps=7, step_size=0.9, minv=0.25),
               dict(sub="chain", sampler="nuts", target="gauss1", N=ctx.n(1000, 20000), depth=4, step_size=0.6)]
